@@ -29,7 +29,7 @@ func init() { fw.Register(c12{}) }
 func (c12) ID() string    { return "C12" }
 func (c12) Level() string { return "exploration" }
 func (c12) Rule() string {
-	return "unit = one run (child process, race detector on): G in {2,8} request goroutines call ShardManager.DoWithShard on 1..3 shards of 1..2 collections with callbacks that do Info / insert / search of random duration, 1..2 deleter goroutines call DeleteCollectionShards, and the idle timer fires constantly (timeout 0 s, or 1 s with pauses so that it fires during requests and deletions), with shard backups enabled or disabled; with backups enabled a shard directory is made immutable around an idle unload at the end, so that the backup cannot be written. Event log {enter/exit(shard pointer, directory), delete start/end}; refuted by: a storage call inside a callback failing or panicking because the shard was closed, two different shard objects for one directory with overlapping use, the shard file missing at callback exit (unless that callback's collection deletion overlapped... never while in use), a stall with a goroutine-dump deadlock witness, or a DoWithShard on every shard failing after the storm. Non-trivial = an unload and a deletion overlapped a request in that run; distinct by (seed, configuration)."
+	return "unit = one run (child process, race detector on): G in {2,8} request goroutines call ShardManager.DoWithShard on 1..3 shards of 1..2 collections with callbacks that do Info / insert / search of random duration, 1..2 deleter goroutines call DeleteCollectionShards, and the idle timer fires constantly (timeout 0 s, or 1 s with pauses so that it fires during requests and deletions), with shard backups enabled or disabled; with backups enabled a shard directory is made immutable around an idle unload at the end, so that the backup cannot be written; at the end a shard file is replaced by noise thirty times while requests for it and a deletion of its collection start together (loads that fail). Event log {enter/exit(shard pointer, directory), delete start/end}; refuted by: a storage call inside a callback failing or panicking because the shard was closed, two different shard objects for one directory with overlapping use, the shard file missing at callback exit (unless that callback's collection deletion overlapped... never while in use), a stall with a goroutine-dump deadlock witness, or a DoWithShard on every shard failing after the storm. Non-trivial = an unload and a deletion overlapped a request in that run; distinct by (seed, configuration)."
 }
 func (c12) Assumptions() []string {
 	return []string{"'every call eventually returns' is restated as bounded progress: no stall with a deadlock witness, and fresh requests succeed after the storm; a watchdog expiry without witness is inconclusive", "a request may receive a clean error (shard already closed) - that is allowed by the statement"}
@@ -277,6 +277,61 @@ loop:
 			fw.SetImmutable(dir, false)
 			res.Stat("idle_unloads_with_an_impossible_backup", 1)
 		}
+	}
+	// loads that fail: the shard file of a collection is replaced by noise (a damaged file), requests for
+	// it and a deletion of its collection are started together, thirty times. Every request must come
+	// back with an error (it never gets a shard), every deletion must come back, nothing may hang.
+	{
+		col := cols[0]
+		sid := col.ShardIds[0]
+		dir := filepath.Join(root, "userCollections", col.UserId, col.Id, sid)
+		noise := make([]byte, 32<<10)
+		for i := range noise {
+			noise[i] = byte(rng.Uint32())
+		}
+		for it := 0; it < 30; it++ {
+			sm.DeleteCollectionShards(col)
+			os.MkdirAll(dir, 0o755)
+			os.WriteFile(filepath.Join(dir, "sharddb.bbolt"), noise, 0o644)
+			var fwg sync.WaitGroup
+			finished := make(chan struct{})
+			for k := 0; k < 3; k++ {
+				fwg.Add(1)
+				go func() {
+					defer fwg.Done()
+					err := sm.DoWithShard(col, sid, func(s *shard.Shard) error {
+						_, err := s.Info()
+						return err
+					})
+					if err == nil {
+						// the deletion came first and the shard was created afresh: fine
+						res.Stat("loads_after_the_damaged_file_was_deleted", 1)
+					} else {
+						res.Stat("failed_loads_of_a_damaged_file", 1)
+					}
+				}()
+			}
+			fwg.Add(1)
+			go func() {
+				defer fwg.Done()
+				time.Sleep(time.Duration(rng.IntN(300)) * time.Microsecond)
+				sm.DeleteCollectionShards(col)
+			}()
+			go func() { fwg.Wait(); close(finished) }()
+			select {
+			case <-finished:
+			case <-time.After(30 * time.Second):
+				buf := make([]byte, 4<<20)
+				n := runtime.Stack(buf, true)
+				if wit := fw.DeadlockWitness(string(buf[:n])); wit != "" {
+					res.Violate("deadlock", "C12:failed-load-deadlock:"+wit, "requests for a shard whose file is damaged and a deletion of its collection, started together, did not all return within 30 s: "+wit+"\n"+trimStacks(string(buf[:n])), nil)
+				} else {
+					res.Inconclusive++
+				}
+				return res
+			}
+		}
+		sm.DeleteCollectionShards(col)
 	}
 	// after the storm: every shard can be loaded and used again
 	for _, col := range cols {
